@@ -22,18 +22,18 @@ type OracleFailure struct {
 
 // Result is what a harness run reports to bin/check.
 type Result struct {
-	Property           string            `json:"property"`
-	Seed               uint64            `json:"seed"`
-	Evaluations        int               `json:"evaluations"`
-	DistinctNontrivial int               `json:"distinct_nontrivial"`
-	Rule               string            `json:"rule"`
-	Histogram          map[string]int    `json:"histogram"`
-	Samples            []interface{}     `json:"samples"`
-	OracleFailures     []OracleFailure   `json:"oracle_failures"`
-	Quirks             map[string]bool   `json:"quirks"`
-	Shards             []string          `json:"shards"`
-	Cases              []interface{}     `json:"cases,omitempty"` // all cases, for replay of correspondence mismatches
-	Notes              []string          `json:"notes,omitempty"`
+	Property           string                 `json:"property"`
+	Seed               uint64                 `json:"seed"`
+	Evaluations        int                    `json:"evaluations"`
+	DistinctNontrivial int                    `json:"distinct_nontrivial"`
+	Rule               string                 `json:"rule"`
+	Histogram          map[string]int         `json:"histogram"`
+	Samples            []interface{}          `json:"samples"`
+	OracleFailures     []OracleFailure        `json:"oracle_failures"`
+	Quirks             map[string]bool        `json:"quirks"`
+	Shards             []string               `json:"shards"`
+	Cases              []interface{}          `json:"cases,omitempty"` // all cases, for replay of correspondence mismatches
+	Notes              []string               `json:"notes,omitempty"`
 	Extra              map[string]interface{} `json:"extra,omitempty"`
 }
 
@@ -60,9 +60,9 @@ func hashOf(v interface{}) string {
 // distinct counter for non-trivial cases
 type distinct struct{ seen map[string]bool }
 
-func newDistinct() *distinct { return &distinct{seen: map[string]bool{}} }
+func newDistinct() *distinct          { return &distinct{seen: map[string]bool{}} }
 func (d *distinct) add(v interface{}) { d.seen[hashOf(v)] = true }
-func (d *distinct) n() int           { return len(d.seen) }
+func (d *distinct) n() int            { return len(d.seen) }
 
 // ---- Coq term printing -------------------------------------------------
 
